@@ -290,6 +290,16 @@ Fixpoint compile_formals (a : cell) (acc : list vcell) : M (list vcell * bool) :
   | _ => ret (rev acc, false)
   end.
 
+(* is_datum, compile.rs:33-40: a procedure, continuation or macro object is not a datum, it
+   cannot be stored as a constant (Heap::put_cell panics on it) *)
+Fixpoint cell_is_datum (c : cell) : bool :=
+  match c with
+  | CProc _ | CMacro | CCont => false
+  | CPair a d => cell_is_datum a && cell_is_datum d
+  | CVec l => forallb cell_is_datum l
+  | _ => true
+  end.
+
 Fixpoint put_cells (l : list cell) : M (list vcell) :=
   match l with
   | [] => ret []
@@ -303,6 +313,7 @@ Fixpoint compile_expression (fuel : nat) (l : lambda) (tail : bool) (e : cell) {
   | O => fun _ => RNoFuel
   | S f =>
       let compile_quote (l : lambda) (x : cell) : M lambda :=
+        if negb (cell_is_datum x) then fail E_OTHER else
         dom v <- maybe_put_cell_m x;
         ret (emit (emit (emit_op l OMovImmediate) v) VAcc) in
       let store_to (l : lambda) (symbol : cell) : M lambda :=
@@ -358,7 +369,9 @@ Fixpoint compile_expression (fuel : nat) (l : lambda) (tail : bool) (e : cell) {
                    if negb (is_nil r2) then fail E_OTHER else
                    dom v <- lift (car_e r1);
                    dom l1 <- compile_expression f l false v; ret (l1, target)
-               | CPair name _ => dom l1 <- compile_lambda l e true; ret (l1, name)
+               | CPair name _ =>
+                   if negb (is_symbol name) then fail E_OTHER else
+                   dom l1 <- compile_lambda l e true; ret (l1, name)
                | _ => fail E_OTHER
                end);
             if is_primitive_symbol symbol then fail E_OTHER else store_to l1 symbol
@@ -457,6 +470,7 @@ with compile_quasiquote (fuel : nat) (l : lambda) (e : cell) (depth : N) {struct
               | other => ret (lam, count, other)
               end in
             dom (l1, count, tailc) <- elems e l 0;
+            if negb (cell_is_datum tailc) then fail E_OTHER else
             dom tv <- maybe_put_cell_m tailc;
             let l2 := emit (emit_op l1 OPushImmediate) tv in
             let fix conses (k : nat) (i : N) (lam : lambda) : lambda :=
@@ -467,6 +481,7 @@ with compile_quasiquote (fuel : nat) (l : lambda) (e : cell) (depth : N) {struct
               end in
             ret (conses (N.to_nat count) 0 l2)
       | _ =>
+          if negb (cell_is_datum e) then fail E_OTHER else
           dom v <- maybe_put_cell_m e;
           ret (emit (emit (emit_op l OMovImmediate) v) VAcc)
       end
